@@ -56,6 +56,18 @@ def parse_call_args(message, fname):
     return None
 
 
+def _glue_error(message, tb):
+    """TypeError / AttributeError / NameError whose innermost frame is harness code (generated harness or /verif/vf),
+    e.g. a recorder that lacks a newly added keyword argument: the harness is outdated, the property is not violated"""
+    if not message.split(":")[0].strip() in ("TypeError", "AttributeError", "NameError"):
+        return False
+    files = [ln.strip() for ln in (tb or "").splitlines() if ln.strip().startswith("File ")]
+    if not files:
+        return False
+    last = files[-1]
+    return ("/vf/" in last and VERIF in last) or "/h_" in last or "vf-" in last
+
+
 class SolverMeter:
     def __init__(self):
         self.checks = 0
@@ -118,6 +130,9 @@ def run_ch(path, func, timeout, templates):
     out["message"] = worst.message[:2000]
     if worst.state == MessageType.CONFIRMED:
         out["verdict"] = "confirmed"
+    elif worst.state in (MessageType.EXEC_ERR, MessageType.POST_ERR) and _glue_error(worst.message, worst.traceback):
+        out["reason"] = ("harness glue error (an exception of a kind typical for an outdated stand-in, raised from harness code, not "
+                         "from rtflite): " + worst.message[:300])
     elif worst.state in (MessageType.EXEC_ERR, MessageType.POST_ERR) and worst.message.startswith("Unsupported:"):
         out["reason"] = "a stand-in does not model an operation the code under test now uses: " + worst.message[:300]
     elif worst.state in (MessageType.POST_FAIL, MessageType.EXEC_ERR, MessageType.POST_ERR):
@@ -143,9 +158,10 @@ def run_call(path, func, kwargs):
         return {"returned": repr(r)[:500], "truthy": bool(r) if r is not None else None,
                 "is_none": r is None, "exception": None}
     except Exception as e:  # noqa: BLE001
-        return {"returned": None, "truthy": None, "is_none": False,
-                "exception": type(e).__name__ + ": " + str(e)[:500],
-                "traceback": traceback.format_exc()[-1500:]}
+        tb = traceback.format_exc()
+        msg = type(e).__name__ + ": " + str(e)[:500]
+        return {"returned": None, "truthy": None, "is_none": False, "exception": msg, "traceback": tb[-1500:],
+                "glue": _glue_error(msg, tb)}
 
 
 def run_py(target, kwargs):
